@@ -31,7 +31,7 @@ META = {
                    "counter (or pop a frame) and which stops at the limit, a run takes at most limit (resp. "
                    "2*limit + depth) steps. NOT proved: that a single step terminates and fits the native stack or "
                    "memory (built-ins in Rust, recursive display / equality / drop of deeply nested values, blocking "
-                   "reads -- the latter is C24): search only."),
+                   "reads -- the latter is C24): search only." " On the evaluator model itself (Machine.v): theorems sandbox_terminates / sandbox_run_length -- under a tick limit L every run of every program ends (value, error or limit error) within 2*L+1 iterations of the eval loop."),
     "level_note": ("Trusted: Coq kernel; tools/gen_builtins.py (regex recognition of the limit assignments and of the "
                    "eval loop shape); the reading of `fn eval` as the abstract step function of the lemma (not "
                    "mechanically derived: the machine model of DESIGN section 2.1 is not built yet, so "
